@@ -167,6 +167,8 @@ Inductive label :=
 | LEnvCancel                 (* the user cancels Run's context *)
 | LEmit (h : hid)            (* the subscriber hands its next message to the pump *)
 | LChanClose (h : hid)       (* the subscriber closes its channel *)
+| LSubEnd (h : hid)          (* the subscription ends by itself (the broker closes it): the channel closes although nobody
+                                called Close() and the context is live *)
 | LFinish (m : mid)          (* the handler function returns (nil error): produced messages are published next *)
 | LFail (m : mid)            (* the handler function returns an error or panics (recovered by handleMessage):
                                 nothing is published, the message is Nacked next *)
@@ -237,6 +239,8 @@ Definition step (s : state) (l : label) : option state :=
       if sub_open s h && (sub_closing s h || (honour s h && hctx_done s h))
       then Some (s <| sub_open := upd (sub_open s) h false |>)
       else None
+  | LSubEnd h =>
+      if sub_open s h then Some (s <| sub_open := upd (sub_open s) h false |>) else None
   | LFinish m =>
       match mp s m with
       | MRunning => Some (s <| mp := upd (mp s) m MPublishing |>)
